@@ -9,7 +9,7 @@
   operand 0 iterStackLen, 1 refStackLen, 2 sp, 3 len(vm.callStack), 4 len(vm.iterStack), 5 len(vm.refStack).
   enterNextFinallyFrame: lhs 0 vm.sp, 1 vm.stash, 2 vm.privEnv, 3 vm.pc, 4 tf.catchPos, 5 tf.finallyPos, 6 tf.finallyRet;
   rhs 0 tf.sp, 1 tf.stash, 2 tf.privEnv, 3 tf.finallyPos, 4 `-1`, 5 `-2`.
-  prelude: state 1 suspendedStart, 5 completed; action 0 `g.state = completed`, 1 `panic(v)`, 2 `return {v, done: true}`.
+  prelude: state 1 suspendedStart, 5 completed; action 0 `g.state = completed`, 1 `panic(v)`, 2 `return {v, done: true}`, 3 `return {undefined, done: true}`.
 -/
 import GojaModel.Generated.C09_Decisions
 import GojaModel.C09.Model
@@ -105,5 +105,12 @@ theorem return_prelude_tie (tag : GTag) (v : Val) (h : tag ≠ .executing) :
     (match runPrelude returnPrelude (tagCode tag) with
      | some 1 => Pre.answer (.t v) | some _ => Pre.answer (.d v) | none => Pre.resume) = genPre tag ⟨.ret, v⟩ := by
   cases tag <;> simp_all [runPrelude, returnPrelude, tagCode, genPre]
+
+/-- The prelude of `generatorObject.next`: a completed generator answers `{undefined, done: true}`, every other state goes
+on (a not-started one to run the body). -/
+theorem next_prelude_tie (tag : GTag) (v : Val) (h : tag ≠ .executing) :
+    (match runPrelude nextPrelude (tagCode tag) with
+     | some 3 => Pre.answer (.d .undef) | some _ => Pre.answer (.t v) | none => Pre.resume) = genPre tag ⟨.next, v⟩ := by
+  cases tag <;> simp_all [runPrelude, nextPrelude, tagCode, genPre]
 
 end GojaModel.C09.Tie
